@@ -125,6 +125,15 @@ void Optimizer::set_configs(
     dest = it->second; \
   } \
 }
+  // Rejects negative settings before changing anything, as the setters do.
+  for (const char *key : {
+      "Optimizer.lr_scale", "Optimizer.l2_strength",
+      "Optimizer.clip_threshold"}) {
+    const auto it = float_configs.find(key);
+    if (it != float_configs.end() && it->second < 0) {
+      PRIMITIV_THROW_ERROR("Could not set negative value to " << key << '.');
+    }
+  }
   SET_CONFIG(epoch_, uint_configs, "Optimizer.epoch");
   SET_CONFIG(lr_scale_, float_configs, "Optimizer.lr_scale");
   SET_CONFIG(l2_strength_, float_configs, "Optimizer.l2_strength");
